@@ -1,5 +1,5 @@
 """C18 — paths are non-empty sequences of valid Rust identifiers."""
-from ..lib import facts, mir, paths, absint, who
+from ..lib import facts, mir, paths, absint, who, symrun
 from ..lib.mir import path_str, is_call, unref, is_adt_agg, agg_field
 from . import common_registry as cr
 
@@ -34,181 +34,196 @@ def run(chk, tier):
 
 
 def acceptor(chk, prog, cfg):
-    chk.rule("R18.1", "acceptor structure of is_rust_identifier = (r#)?[A-Za-z_][A-Za-z0-9_]* (see DESIGN.md C18 (a)-(e))")
+    chk.rule("R18.1", "accepted language of is_rust_identifier = (r#)?[A-Za-z_][A-Za-z0-9_]* , decided by interpreting the whole function abstractly "
+             "(helpers interpreted too) over scenarios: non-ASCII input; prefix stripped / not stripped; empty remainder; each of the 256 head bytes with an "
+             "opaque tail; each of the 256 bytes for the tail predicate (see DESIGN.md C18 (a)-(e))")
     b = cr.anchor(chk, prog, "utils::is_rust_identifier")
     if b is None:
         return
-    S = cr.arg(b, 1)
+    S = absint.Sym
     W = b.where
-    # (a) non-ascii test first
-    asc = b.calls_to("core::str::<impl str>::is_ascii")
-    ok = False
-    if len(asc) == 1:
-        abb, at = asc[0]
-        others = [bb for bb, t in b.calls() if bb != abb]
-        sw = b.blocks[at["target"]]["term"] if at["target"] is not None else None
-        if unref(b.operand_term(at["args"][0])) == S and all(b.dominates(abb, x) for x in others) and sw and sw["k"] == "switch" \
-                and b.operand_term(sw["discr"]) == b.place_term(at["dest"]):
-            zero = [a[1] for a in sw["arms"] if a[0] == "0"]
-            if zero:
-                try:
-                    r = absint.run(b, zero[0], {})
-                    ok = r is False or r == 0
-                except absint.Unrecognised:
-                    ok = False
-    chk.expect(ok, "R18.1a", "is_rust_identifier:non-ascii-rejected-first", W(), "is_ascii calls: %d" % len(asc), cfg)
-    # (b) raw prefix: at most once
-    sf = b.calls_to("core::slice::<impl [T]>::split_first")
-    if len(sf) != 1:
-        chk.unrecognised("R18.1", "is_rust_identifier:shape", W(), "expected one split_first over the remaining bytes, found %d" % len(sf), cfg)
-        return
-    sbb, st = sf[0]
-    bytes_t = unref(b.operand_term(st["args"][0]))
-    names = mir.call_names(bytes_t)
-    trimmed = None
-    if is_call(bytes_t, "core::str::<impl str>::as_bytes", nargs=1):
-        trimmed = unref(bytes_t[2][0])
-    strip_all = [n for n in names if n.split("::")[-1] in STRIP_ALL]
-    if strip_all:
-        chk.fail("R18.1b", "raw-prefix-strip-all", W(sbb), "the raw prefix is removed with %s, which strips repeatedly: `r#r#x` is accepted "
-                 "((r#)* instead of (r#)?)" % strip_all[0], cfg)
-    else:
-        ok = False
-        detail = path_str(bytes_t)
-        if trimmed is not None:
-            # unwrap_or(strip_prefix(s, "r#"), s)
-            if is_call(trimmed, "core::option::Option::unwrap_or", nargs=2):
-                sp, dflt = trimmed[2]
-                ok = is_call(sp, "core::str::<impl str>::strip_prefix", nargs=2) and unref(sp[2][0]) == S and unref(sp[2][1]) == ("str", "r#") and unref(dflt) == S
-            elif trimmed[0] == "phi":
-                # match s.strip_prefix("r#") { Some(x) => x, None => s }
-                alts = set(unref(x) for x in trimmed[1])
-                sp = [x for x in alts if x != S]
-                ok = S in alts and len(sp) == 1 and sp[0][0] == "field" and is_call(sp[0][1][1], "core::str::<impl str>::strip_prefix", nargs=2) \
-                    and unref(sp[0][1][1][2][1]) == ("str", "r#")
-            elif trimmed == S:
-                detail = "no raw-prefix handling at all: `r#type` would be rejected"
-        chk.expect(ok, "R18.1b", "raw-prefix-strip-once", W(sbb), detail, cfg) if ok or trimmed == S else \
-            chk.unrecognised("R18.1b", "raw-prefix-strip-once", W(sbb), "unrecognised raw-prefix handling: %s" % detail, cfg)
-    # (c)(d)(e): abstract interpretation after split_first
-    sw = b.blocks[st["target"]]["term"] if st["target"] is not None else None
-    dest = st["dest"]["l"]
-    # the discriminant switch may be one block later
-    swbb = st["target"]
-    if sw and sw["k"] != "switch":
-        chk.unrecognised("R18.1", "is_rust_identifier:match-split_first", W(sbb), "no match on the split_first result", cfg)
-        return
-    some_t = [a[1] for a in sw["arms"] if a[0] == "1"]
-    none_t = [a[1] for a in sw["arms"] if a[0] == "0"] or [sw["otherwise"]]
-    if not some_t:
-        some_t = [sw["otherwise"]]
-    closure_seen = {}
 
-    def handler(name, args, t):
-        last = name.split("::")[-1]
-        if last == "iter" and len(args) == 1 and args[0] == absint.Sym("tail"):
-            return absint.Sym("tail-iter")
-        if last == "all" and len(args) == 2 and args[0] == absint.Sym("tail-iter") and isinstance(args[1], absint.Sym) and args[1].name.startswith("closure:"):
-            closure_seen["c"] = args[1].name[len("closure:"):]
-            return absint.Sym("TAIL")
-        return None
+    class Scen:
+        def __init__(self, ascii_=True, stripped=False, bytes_=None):
+            self.ascii, self.stripped, self.bytes = ascii_, stripped, bytes_
+            self.log = []
+            self.tail_pred = None
 
-    bad = []
+        def h(self, name, args, t):
+            sp = mir.strip_generics(name)
+            last = sp.split("::")[-1]
+            if sp == "core::str::<impl str>::is_ascii" and len(args) == 1:
+                self.log.append(("is_ascii", args[0]))
+                return self.ascii
+            if sp == "core::str::<impl str>::strip_prefix" and len(args) == 2:
+                self.log.append(("strip_prefix", args[0], args[1]))
+                return absint.some(S("rest")) if self.stripped else absint.NONE
+            if last in STRIP_ALL and sp.startswith("core::str"):
+                self.log.append(("strip-all", last))
+                return S("rest*")
+            if sp == "core::str::<impl str>::as_bytes" and len(args) == 1:
+                self.log.append(("as_bytes", args[0]))
+                return self.bytes
+            if last == "split_first" and len(args) == 1 and isinstance(args[0], tuple) and args[0][:1] == ("slice",):
+                sl = args[0]
+                if not sl[1]:
+                    return absint.NONE
+                rest = sl[2] if len(sl[1]) == 1 and sl[2] is not None else ("slice", list(sl[1][1:]), sl[2])
+                return absint.some(("tuple", [sl[1][0], rest]))
+            if last in ("iter", "copied", "cloned", "into_iter") and len(args) == 1:
+                return args[0]
+            if last == "all" and len(args) == 2:
+                self.log.append(("all", args[0]))
+                self.tail_pred = args[1]
+                return S("TAIL")
+            return None
+
+        def run(self):
+            return absint.run(b, 0, {1: S("s")}, call=self.h, prog=prog, inline=True)
+
+    def falsy(r):
+        return r is False or r == 0
+
+    # (a) non-ASCII input is rejected, and that test comes first
     try:
+        sc = Scen(ascii_=False)
+        r = sc.run()
+        ok = falsy(r) and sc.log[:1] == [("is_ascii", S("s"))] and len(sc.log) == 1
+        chk.expect(ok, "R18.1a", "is_rust_identifier:non-ascii-rejected-first", W(), "non-ASCII input -> %r after %s" % (r, [x[0] for x in sc.log]), cfg)
+    except absint.Unrecognised as e:
+        chk.unrecognised("R18.1a", "is_rust_identifier:non-ascii-rejected-first", W(), "cannot interpret: %s" % e, cfg)
+    # (b) the raw prefix is removed at most once: what is classified is `rest` when strip_prefix("r#") matched, `s` itself otherwise
+    try:
+        seen = {}
+        strip_all = []
+        for stripped in (True, False):
+            sc = Scen(stripped=stripped, bytes_=("slice", [], None))
+            sc.run()
+            strip_all += [x[1] for x in sc.log if x[0] == "strip-all"]
+            sp_ = [x for x in sc.log if x[0] == "strip_prefix"]
+            ab = [x for x in sc.log if x[0] == "as_bytes"]
+            seen[stripped] = (sp_, ab)
+        if strip_all:
+            chk.fail("R18.1b", "raw-prefix-strip-all", W(), "the raw prefix is removed with %s, which strips repeatedly: `r#r#x` is accepted "
+                     "((r#)* instead of (r#)?)" % strip_all[0], cfg)
+        else:
+            ok = all(len(seen[k][0]) == 1 and seen[k][0][0][1:] == (S("s"), S("str:r#")) and len(seen[k][1]) == 1 for k in seen) \
+                and seen[True][1][0][1] == S("rest") and seen[False][1][0][1] == S("s")
+            chk.expect(ok, "R18.1b", "raw-prefix-strip-once", W(), "classified bytes: prefix present -> %s, absent -> %s" % (
+                [getattr(x[1], "name", x[1]) for x in seen[True][1]], [getattr(x[1], "name", x[1]) for x in seen[False][1]]), cfg)
+    except absint.Unrecognised as e:
+        chk.unrecognised("R18.1b", "raw-prefix-strip-once", W(), "cannot interpret: %s" % e, cfg)
+    # (d) empty remainder
+    try:
+        r = Scen(bytes_=("slice", [], None)).run()
+        chk.expect(falsy(r), "R18.1d", "empty-remainder-rejected", W(), "empty remainder -> %r" % (r,), cfg)
+    except absint.Unrecognised as e:
+        chk.unrecognised("R18.1d", "empty-remainder-rejected", W(), str(e), cfg)
+    # (c)(e) head class, conjunction with the tail test, tail class
+    tail_pred = None
+    try:
+        bad = []
+        tails = set()
         for v in range(256):
-            env = {dest: ("variant", "Some", [("tuple", [v, absint.Sym("tail")])])}
-            r = absint.run(b, some_t[0], env, call=handler)
-            want = absint.Sym("TAIL") if v in HEAD else False
-            if r != want and not (want is False and r == 0):
+            sc = Scen(bytes_=("slice", [v], S("tail")))
+            r = sc.run()
+            want = S("TAIL") if v in HEAD else False
+            if r != want and not (want is False and falsy(r)):
                 bad.append((v, r))
-        headset_ok = not bad
-        detail = "head class [A-Za-z_] and result = head_ok && tail_ok" if headset_ok else \
-            "bytes with the wrong verdict (byte, result): %s" % [(chr(v) if 32 < v < 127 else v, r) for v, r in bad[:8]]
-        chk.expect(headset_ok, "R18.1c", "head-class-and-conjunction", W(some_t[0]), detail, cfg)
+            if sc.tail_pred is not None:
+                tail_pred = sc.tail_pred
+                tails |= {x[1] for x in sc.log if x[0] == "all"}
+        chk.expect(not bad, "R18.1c", "head-class-and-conjunction", W(), "head class [A-Za-z_] and result = head_ok && tail_ok" if not bad else
+                   "bytes with the wrong verdict (byte, result): %s" % [(chr(v) if 32 < v < 127 else v, r) for v, r in bad[:8]], cfg)
+        chk.expect(tails == {S("tail")}, "R18.1c", "tail=rest-of-split_first", W(), "the tail test runs over %s" % sorted(getattr(x, "name", repr(x)) for x in tails), cfg)
     except absint.Unrecognised as e:
-        chk.unrecognised("R18.1c", "head-class-and-conjunction", W(some_t[0]), "cannot interpret the head test: %s" % e, cfg)
-    try:
-        r = absint.run(b, none_t[0], {dest: ("variant", "None", [])})
-        chk.expect(r is False or r == 0, "R18.1d", "empty-remainder-rejected", W(none_t[0]), "empty remainder -> %r" % (r,), cfg)
-    except absint.Unrecognised as e:
-        chk.unrecognised("R18.1d", "empty-remainder-rejected", W(none_t[0]), str(e), cfg)
-    # tail closure
-    cl = closure_seen.get("c")
-    cb = prog.body(cl) if cl else None
-    if cb is None:
-        chk.unrecognised("R18.1c", "tail-class", W(), "tail test closure not found", cfg)
+        chk.unrecognised("R18.1c", "head-class-and-conjunction", W(), "cannot interpret the head test: %s" % e, cfg)
+    if tail_pred is None:
+        chk.unrecognised("R18.1c", "tail-class", W(), "tail predicate not found (no Iterator::all over the tail)", cfg)
     else:
         try:
             bad = []
             for v in range(256):
-                r = absint.run(cb, 0, {2: v, 1: absint.Sym("env")})
+                if isinstance(tail_pred, tuple) and tail_pred[:1] == ("closure",):
+                    r = absint.call_closure(prog, tail_pred, [v], None, 1, True)
+                elif isinstance(tail_pred, tuple) and tail_pred[:1] == ("fnitem",):
+                    r = absint.run(prog.body(tail_pred[1]), 0, {1: v}, prog=prog, inline=True)
+                else:
+                    raise absint.Unrecognised("tail predicate %r" % (tail_pred,))
                 if bool(r) != (v in TAIL):
                     bad.append((chr(v) if 32 < v < 127 else v, r))
-            chk.expect(not bad, "R18.1c", "tail-class", cb.where(), "tail class [A-Za-z0-9_]" if not bad else "bytes with the wrong verdict: %s" % bad[:8], cfg)
+            chk.expect(not bad, "R18.1c", "tail-class", W(), "tail class [A-Za-z0-9_]" if not bad else "bytes with the wrong verdict: %s" % bad[:8], cfg)
         except absint.Unrecognised as e:
-            chk.unrecognised("R18.1c", "tail-class", cb.where(), "cannot interpret the tail test: %s" % e, cfg)
-    # the tail passed to `all` is the second component of the same split_first result, iterated in full
-    allc = b.calls_to("core::iter::traits::iterator::Iterator::all", declared=True)
-    ok = False
-    if len(allc) == 1:
-        it = b.operand_term(allc[0][1]["args"][0])
-        it = unref(it)
-        if it[0] == "var":
-            ini = b.var_init(it[1])
-            it = ini[0] if len(ini) == 1 else it
-        if is_call(it, "core::slice::<impl [T]>::iter", nargs=1):
-            src = unref(it[2][0])
-            ok = src[0] == "field" and src[2] == 1 and "split_first" in path_str(src)
-    chk.expect(ok, "R18.1c", "tail=rest-of-split_first", W(), "Iterator::all over %s" % (path_str(it) if len(allc) == 1 else "?"), cfg)
+            chk.unrecognised("R18.1c", "tail-class", W(), "cannot interpret the tail test: %s" % e, cfg)
 
 
 def from_segments(chk, prog, cfg):
-    chk.rule("R18.2", "Path::from_segments: empty -> Err(MissingSegments); first segment failing is_rust_identifier -> "
-             "Err(InvalidIdentifier{segment: its position}); otherwise Ok(Path{segments: the collected input, in order})")
+    chk.rule("R18.2", "Path::from_segments, decided on scenario runs: empty -> Err(MissingSegments); the first segment failing is_rust_identifier -> "
+             "Err(InvalidIdentifier{segment: its position}); otherwise Ok(Path{segments: the collected input, in order}); the search is `position(|s| "
+             "!is_rust_identifier(s))` or the equivalent enumerate loop with early return")
     b = cr.anchor(chk, prog, "ty::path::Path::from_segments")
     if b is None:
         return
     W = b.where
-    pos_closure = {}
+    S = absint.Sym
+    pred = {"checked": 0, "ok": True}
 
-    def mk(is_empty, position):
+    def mk(is_empty, bad):
+        st = {"n": 0, "ident": True}
+
         def h(name, args, t):
             last = name.split("::")[-1]
-            if last == "into_iter":
-                return absint.Sym("it")
-            if last == "collect" and args == [absint.Sym("it")]:
-                return absint.Sym("V")
-            if last == "is_empty" and args == [absint.Sym("V")]:
+            if last == "into_iter" and args == [S("segments")]:
+                return S("it")
+            if last == "collect" and args == [S("it")]:
+                return S("V")
+            if last == "is_empty" and args == [S("V")]:
                 return is_empty
-            if last in ("deref", "as_slice") and args == [absint.Sym("V")]:
-                return absint.Sym("V")
-            if last == "iter" and args == [absint.Sym("V")]:
-                return absint.Sym("V-iter")
-            if last == "position" and len(args) == 2 and args[0] == absint.Sym("V-iter") and isinstance(args[1], absint.Sym):
-                pos_closure["c"] = args[1].name[len("closure:"):]
-                return position
+            if last in ("deref", "as_slice", "as_ref") and len(args) == 1:
+                return args[0]
+            if last in ("iter", "into_iter") and args == [S("V")]:
+                return S("V-iter")
+            if last == "enumerate" and args == [S("V-iter")]:
+                return S("V-enum")
+            if last == "into_iter" and args == [S("V-enum")]:
+                return S("V-enum")
+            if last == "is_rust_identifier" and len(args) == 1:
+                if args[0] == S("seg"):
+                    return st["ident"]
+                if args[0] == S("seg0"):
+                    return not bad
+                return None
+            if last == "position" and len(args) == 2 and args[0] == S("V-iter") and isinstance(args[1], tuple) and args[1][:1] == ("closure",):
+                # the predicate must be the negation of is_rust_identifier on the item
+                for ident in (True, False):
+                    st["ident"] = ident
+                    r = absint.call_closure(prog, args[1], [S("seg")], h, 1, True)
+                    pred["checked"] += 1
+                    if r is not (not ident) and r != int(not ident):
+                        pred["ok"] = False
+                return absint.some(S("pos")) if bad else absint.NONE
+            if last == "next" and args == [S("V-enum")]:
+                # the loop form: one segment (good or bad according to the scenario), then the end
+                st["n"] += 1
+                pred["checked"] += 1
+                return absint.some(("tuple", [S("pos"), S("seg0")])) if st["n"] == 1 else absint.NONE
             return None
         return h
     scenarios = [
-        ("empty", mk(True, ("variant", "None", [], 0)), lambda r: _is(r, "Err") and _is(r[2][0], "MissingSegments")),
-        ("bad-segment", mk(False, ("variant", "Some", [absint.Sym("pos")], 1)),
-         lambda r: _is(r, "Err") and _is(r[2][0], "InvalidIdentifier") and r[2][0][2] == [absint.Sym("pos")]),
-        ("all-good", mk(False, ("variant", "None", [], 0)),
-         lambda r: _is(r, "Ok") and _is(r[2][0], "Path") and r[2][0][2] == [absint.Sym("V")]),
+        ("empty", mk(True, False), lambda r: _is(r, "Err") and _is(r[2][0], "MissingSegments")),
+        ("bad-segment", mk(False, True),
+         lambda r: _is(r, "Err") and _is(r[2][0], "InvalidIdentifier") and r[2][0][2] == [S("pos")]),
+        ("all-good", mk(False, False),
+         lambda r: _is(r, "Ok") and _is(r[2][0], "Path") and r[2][0][2] == [S("V")]),
     ]
-    for name, h, pred in scenarios:
+    for name, h, good in scenarios:
         try:
-            r = absint.run(b, 0, {1: absint.Sym("segments")}, call=h)
-            chk.expect(bool(pred(r)), "R18.2", "from_segments:" + name, W(), "scenario %s -> %r" % (name, _show(r)), cfg)
+            r = absint.run(b, 0, {1: S("segments")}, call=h, prog=prog, inline=True)
+            chk.expect(bool(good(r)), "R18.2", "from_segments:" + name, W(), "scenario %s -> %r" % (name, _show(r)), cfg)
         except absint.Unrecognised as e:
             chk.unrecognised("R18.2", "from_segments:" + name, W(), "cannot interpret: %s" % e, cfg)
-    cl = pos_closure.get("c")
-    cb = prog.body(cl) if cl else None
-    ok = False
-    if cb is not None:
-        rt = cb.return_term()
-        ok = rt[0] == "unop" and rt[1] == "Not" and is_call(rt[2], "scale_info::utils::is_rust_identifier", nargs=1) and unref(rt[2][2][0]) == ("arg", 2, cb.names.get(2))
-    chk.expect(ok, "R18.2", "from_segments:predicate=!is_rust_identifier", cb.where() if cb else W(), path_str(cb.return_term()) if cb else "closure missing", cfg)
+    chk.expect(pred["checked"] > 0 and pred["ok"], "R18.2", "from_segments:predicate=!is_rust_identifier", W(),
+               "the searched-for segment is the first one for which is_rust_identifier is false: %s (%d observations)" % (pred["ok"], pred["checked"]), cfg)
     # who builds Path<MetaForm> values
     allowed = {"scale_info::ty::path::Path::from_segments", "scale_info::ty::path::Path::from_segments_unchecked", "scale_info::ty::path::Path::voldemort",
                "<scale_info::ty::path::Path as core::default::Default>::default",
@@ -234,120 +249,173 @@ def _show(v):
     return repr(v)
 
 
+class PathRun(symrun.Run):
+    """std's string/iterator vocabulary over abstract sequences: ('split', s, sep), ('once', x), ('chain', a, b), ('array', [..]), ('map', seq, f-id)"""
+
+    def handler(self, name, args, t):
+        S = absint.Sym
+        sp = mir.strip_generics(name)
+        last = sp.split("::")[-1]
+        prog = self.prog
+        if sp == "core::str::<impl str>::split" and len(args) == 2:
+            return ("split", args[0], args[1])
+        if sp == "core::iter::sources::once::once" and len(args) == 1:
+            return ("once", args[0])
+        if last == "chain" and len(args) == 2:
+            return ("chain", args[0], args[1])
+        if last == "map" and "iterator::Iterator" in sp and len(args) == 2:
+            f = args[1]
+            if isinstance(f, tuple) and f[:1] == ("closure",):
+                outs = set()
+                for found in (False, True):
+                    self.scen["found"] = found
+                    outs.add(_h(absint.call_closure(prog, f, [S("seg")], self.handler, 1, True)))
+                self.scen.pop("found", None)
+                if outs == {_h(S("seg"))}:
+                    return args[0]  # the mapped function is the identity
+                return ("map", args[0], tuple(sorted(outs, key=repr)))
+            return None
+        if last == "find" and len(args) == 2:
+            src = args[0]
+            if src == symrun.EMPTY_VEC:
+                return absint.NONE
+            self.log.append(("find", src, args[1]))
+            if self.scen.get("found"):
+                return absint.some(("tuple", [S("pair.search"), S("pair.replace")]))
+            return absint.NONE
+        if sp.endswith("Path::from_segments") and len(args) == 1:
+            self.log.append(("from_segments", args[0]))
+            return ("variant", "Ok", [S("PATH")], 0, ("0",), "core::result::Result") if self.scen.get("valid", True) else \
+                ("variant", "Err", [S("ERR")], 1, ("0",), "core::result::Result")
+        if sp in ("core::result::Result::expect", "core::result::Result::unwrap", "core::result::Result::unwrap_or_else") and args:
+            r = args[0]
+            if isinstance(r, tuple) and r[:2] == ("variant", "Ok"):
+                return r[2][0]
+            if isinstance(r, tuple) and r[:2] == ("variant", "Err"):
+                if last == "unwrap_or_else":
+                    f = args[1]
+                    cb = prog.body(f[1]) if isinstance(f, tuple) and f[:1] == ("closure",) else None
+                    if cb is not None and not cb.return_blocks():
+                        raise absint.Unrecognised("PANIC: the fallback closure never returns")
+                    try:
+                        v = absint.call_closure(prog, args[1], [r[2][0]], self.handler, 1, True)
+                    except absint.Unrecognised as e:
+                        if "PANIC" in str(e) or "panic" in str(e):
+                            raise absint.Unrecognised("PANIC: unwrap_or_else closure diverges")
+                        raise
+                    return v
+                raise absint.Unrecognised("PANIC: %s on Err" % last)
+        if last == "last" and len(args) == 1:
+            self.log.append(("last", args[0]))
+            return absint.some(S("LAST")) if self.scen.get("nonempty", True) else absint.NONE
+        if last == "split_last" and len(args) == 1:
+            self.log.append(("split_last", args[0]))
+            return absint.some(("tuple", [S("LAST"), S("INIT")])) if self.scen.get("nonempty", True) else absint.NONE
+        if last == "is_empty" and len(args) == 1:
+            self.log.append(("is_empty", args[0]))
+            return S("IS_EMPTY")
+        if last in ("eq", "ne") and len(args) == 2 and "PartialEq" in (t.get("trait") or sp):
+            self.log.append(("eq", args[0], args[1]))
+            return S("EQ")
+        if last in ("iter", "as_slice", "deref", "as_ref") and len(args) == 1:
+            return args[0]
+        return symrun.Run.handler(self, name, args, t)
+
+
+def _h(v):
+    if isinstance(v, list):
+        return tuple(_h(x) for x in v)
+    if isinstance(v, tuple):
+        return tuple(_h(x) for x in v)
+    return v
+
+
 def constructors(chk, prog, cfg):
-    chk.rule("R18.3", "Path::new / new_with_replace / prelude reach construction only through from_segments (module_path.split(\"::\")."
-             "chain(once(ident)) [ .map(replace) ]) and turn Err into a panic; replacement = first pair whose search equals the segment")
-    b = cr.anchor(chk, prog, "ty::path::Path::new")
-    if b is not None:
-        rt = b.return_term()
-        ok = _is_expect(rt) and is_call(rt[2][0], "Path::from_segments", nargs=1) and _is_chain(b, rt[2][0][2][0])
-        chk.expect(ok, "R18.3", "Path::new", b.where(), path_str(rt)[:200], cfg)
+    chk.rule("R18.3", "Path::new / new_with_replace / prelude, decided on symbolic runs: the only way to a Path is ONE call of from_segments on "
+             "module_path.split(\"::\") ++ [ident] (new_with_replace: each segment replaced by the `replace` of the first pair whose `search` equals it, else "
+             "kept; prelude: [ident]); Ok -> that path, Err -> panic")
+    S = absint.Sym
+    SEQ = ("chain", ("split", S("MP"), S("str:::")), ("once", S("IDENT")))
+
+    def run(fn, args, scen):
+        ps = [p for p in prog.fns if mir.strip_generics(p) == "scale_info::ty::path::Path::" + fn]
+        if len(ps) != 1:
+            return None, None, "anchor"
+        r = PathRun(prog, dict(scen))
+        try:
+            return r.run(ps[0], args), r.log, None
+        except absint.Unrecognised as e:
+            return None, r.log, str(e)
+
+    def judge(fn, args, seq_ok):
+        b = cr.anchor(chk, prog, "ty::path::Path::" + fn)
+        if b is None:
+            return
+        v, log, err = run(fn, args, {"valid": True})
+        fs = [x for x in (log or []) if x[0] == "from_segments"]
+        ok = err is None and v == S("PATH") and len(fs) == 1 and seq_ok(_h(fs[0][1]))
+        detail = "valid segments: from_segments(%s) -> %s" % (_h(fs[0][1]) if fs else "?", symrun.show(v) if err is None else err)
+        v2, log2, err2 = run(fn, args, {"valid": False})
+        ok = ok and err2 is not None and "PANIC" in err2
+        detail += "; invalid segments: %s" % (err2 or "returns %s (must panic)" % symrun.show(v2))
+        chk.expect(ok, "R18.3", "Path::" + fn, b.where(), detail[:500], cfg)
+    judge("new", [S("IDENT"), S("MP")], lambda q: q == _h(SEQ))
+    REPL = _h(("map", SEQ, tuple(sorted({_h(S("seg")), _h(S("pair.replace"))}, key=repr))))
+    judge("new_with_replace", [S("IDENT"), S("MP"), S("REPL")], lambda q: q == REPL)
+    judge("prelude", [S("IDENT")], lambda q: q in (_h(("tuple", [S("IDENT")])), _h(("array", [S("IDENT")])), _h(("vec", (S("IDENT"),)))))
+    # the replacement predicate: the pair is found by comparing the segment with its first component, the list searched is the parameter
     b = cr.anchor(chk, prog, "ty::path::Path::new_with_replace")
     if b is not None:
-        rt = b.return_term()
+        ps = [p for p in prog.fns if mir.strip_generics(p) == "scale_info::ty::path::Path::new_with_replace"]
+        r = PathRun(prog, {"valid": True})
         ok = False
-        if _is_expect(rt) and is_call(rt[2][0], "Path::from_segments", nargs=1):
-            m = rt[2][0][2][0]
-            if is_call(m, "core::iter::traits::iterator::Iterator::map", nargs=2) and _is_chain(b, m[2][0]):
-                cl, ups = mir.closure_of(m[2][1])
-                if cl and len(ups) == 1 and unref(ups[0]) == cr.arg(b, 3):
-                    ok = _replace_closure(prog, cl)
-        chk.expect(ok, "R18.3", "Path::new_with_replace", b.where(), path_str(rt)[:260], cfg)
-    b = cr.anchor(chk, prog, "ty::path::Path::prelude")
-    if b is not None:
-        rt = b.return_term()
-        ok = False
-        if is_call(rt, "core::result::Result::unwrap_or_else", nargs=2) or is_call(rt, "core::result::Result::expect") or is_call(rt, "core::result::Result::unwrap"):
-            fs = rt[2][0]
-            if is_call(fs, "Path::from_segments", nargs=1):
-                a = unref(fs[2][0])
-                ok = a[0] == "agg" and a[1] == "array" and list(a[3]) == [cr.arg(b, 1)]
-                if ok and len(rt[2]) == 2:
-                    cl, _ = mir.closure_of(rt[2][1])
-                    cb = prog.body(cl) if cl else None
-                    ok = cb is not None and any("panic" in cb.callee_name(t) for _, t in cb.calls()) and not cb.return_blocks()
-        chk.expect(ok, "R18.3", "Path::prelude", b.where(), path_str(rt)[:200], cfg)
-
-
-def _is_expect(rt):
-    return (is_call(rt, "core::result::Result::expect", nargs=2) or is_call(rt, "core::result::Result::unwrap", nargs=1))
-
-
-def _is_chain(b, t):
-    """module_path.split("::").chain(iter::once(ident))"""
-    if not is_call(t, "core::iter::traits::iterator::Iterator::chain", nargs=2):
-        return False
-    sp, on = t[2]
-    return is_call(sp, "core::str::<impl str>::split", nargs=2) and unref(sp[2][0]) == cr.arg(b, 2) and unref(sp[2][1]) == ("str", "::") \
-        and is_call(on, "core::iter::sources::once::once", nargs=1) and unref(on[2][0]) == cr.arg(b, 1)
-
-
-def _replace_closure(prog, cl):
-    """|s| segment_replace.iter().find(|r| s == r.0).map_or(s, |r| r.1)"""
-    cb = prog.body(cl)
-    if cb is None:
-        return False
-    rt = cb.return_term()
-    S = ("arg", 2, cb.names.get(2))
-    if not is_call(rt, "core::option::Option::map_or", nargs=3):
-        return False
-    fnd, dflt, sel = rt[2]
-    if unref(dflt) != S or not is_call(fnd, "core::iter::traits::iterator::Iterator::find", nargs=2):
-        return False
-    it, pred = fnd[2]
-    it = unref(it)
-    if not (is_call(it, "core::slice::<impl [T]>::iter", nargs=1)):
-        return False
-    src = unref(it[2][0])
-    if not (src[0] == "field" and src[2] == 0 and unref(src[1]) == ("arg", 1, cb.names.get(1))):
-        return False
-    pc, pups = mir.closure_of(pred)
-    sc, _ = mir.closure_of(sel)
-    pb = prog.body(pc) if pc else None
-    sb = prog.body(sc) if sc else None
-    if pb is None or sb is None or len(pups) != 1 or unref(pups[0]) != S:
-        return False
-    prt = pb.return_term()
-    okp = is_call(prt, "core::cmp::PartialEq::eq", nargs=2)
-    if okp:
-        a, c = (paths.access_path(pb, x) for x in prt[2])
-        R = ("arg", 2, pb.names.get(2))
-        E = ("arg", 1, pb.names.get(1))
-        sides = {(a[0], a[1]) if a else None, (c[0], c[1]) if c else None}
-        okp = (E, ".0") in sides and (R, ".0") in sides
-    srt = sb.return_term()
-    sap = paths.access_path(sb, srt)
-    oks = sap is not None and sap[0] == ("arg", 2, sb.names.get(2)) and sap[1] == ".1"
-    return okp and oks
+        detail = ""
+        try:
+            r.run(ps[0], [S("IDENT"), S("MP"), S("REPL")])
+            finds = [x for x in r.log if x[0] == "find"]
+            ok = bool(finds) and all(x[1] == S("REPL") for x in finds)
+            preds = {x[2][1] for x in finds if isinstance(x[2], tuple) and x[2][:1] == ("closure",)}
+            detail = "find over %s" % sorted({symrun.show(x[1]) for x in finds})
+            for pc in preds:
+                pr = PathRun(prog, {})
+                clo = [x[2] for x in finds if x[2][1] == pc][0]
+                res = absint.call_closure(prog, clo, [("tuple", [S("cand.search"), S("cand.replace")])], pr.handler, 1, True)
+                eqs = [x for x in pr.log if x[0] == "eq"]
+                ok = ok and res == S("EQ") and len(eqs) == 1 and {eqs[0][1], eqs[0][2]} == {S("seg"), S("cand.search")}
+                detail += "; predicate compares %s" % sorted(symrun.show(y) for y in eqs[0][1:]) if eqs else "; predicate has no comparison"
+        except absint.Unrecognised as e:
+            ok, detail = False, "cannot interpret: %s" % e
+        chk.expect(ok, "R18.3", "Path::new_with_replace:first-matching-search", b.where(), detail[:300], cfg)
 
 
 def accessors(chk, prog, cfg):
-    chk.rule("R18.4", "ident = last segment (cloned); namespace = all but the last (empty when empty); Display = segments.join(\"::\"); "
-             "is_empty = segments.is_empty()")
-    b = cr.anchor(chk, prog, "ty::path::Path::ident")
-    if b is not None:
-        rt = b.return_term()
-        ok = is_call(rt, "core::option::Option::cloned", nargs=1) and is_call(rt[2][0], "last", nargs=1) \
-            and is_call(rt[2][0][2][0], "core::slice::<impl [T]>::iter", nargs=1) and cr.self_field(b, rt[2][0][2][0][2][0], "segments")
-        if not ok and is_call(rt, "core::option::Option::cloned", nargs=1) and is_call(rt[2][0], "core::slice::<impl [T]>::last", nargs=1):
-            ok = cr.self_field(b, rt[2][0][2][0], "segments")
-        chk.expect(ok, "R18.4", "Path::ident", b.where(), path_str(rt), cfg)
-    b = cr.anchor(chk, prog, "ty::path::Path::namespace")
-    if b is not None:
-        rt = unref(b.return_term())
-        ok = False
-        if is_call(rt, "core::option::Option::unwrap_or", nargs=2) and is_call(rt[2][0], "core::option::Option::map", nargs=2):
-            sl, clo = rt[2][0][2]
-            cl, _ = mir.closure_of(clo)
-            cb = prog.body(cl) if cl else None
-            if is_call(sl, "core::slice::<impl [T]>::split_last", nargs=1) and cr.self_field(b, sl[2][0], "segments") and cb is not None:
-                ap = paths.access_path(cb, cb.return_term())
-                ok = ap is not None and ap[0] == ("arg", 2, cb.names.get(2)) and ap[1] == ".1"
-        chk.expect(ok, "R18.4", "Path::namespace", b.where(), path_str(rt)[:200], cfg)
-    b = cr.anchor(chk, prog, "ty::path::Path::is_empty")
-    if b is not None:
-        rt = b.return_term()
-        chk.expect(is_call(rt, "alloc::vec::Vec::is_empty", nargs=1) and cr.self_field(b, rt[2][0], "segments"), "R18.4", "Path::is_empty", b.where(), path_str(rt), cfg)
+    chk.rule("R18.4", "ident = last segment (cloned), None when empty; namespace = all but the last, empty when empty; Display = segments.join(\"::\"); "
+             "is_empty = segments.is_empty() (decided on symbolic runs)")
+    S = absint.Sym
+    PATH = "scale_info::ty::path::Path"
+
+    def run(fn, scen):
+        ps = [p for p in prog.fns if mir.strip_generics(p) == PATH + "::" + fn]
+        r = PathRun(prog, dict(scen))
+        return r.run(ps[0], [symrun.struct(prog, PATH, "self")]), r.log
+    for fn in ("ident", "namespace", "is_empty"):
+        b = cr.anchor(chk, prog, "ty::path::Path::" + fn)
+        if b is None:
+            continue
+        try:
+            v1, l1 = run(fn, {"nonempty": True})
+            v0, l0 = run(fn, {"nonempty": False})
+            srcs = {x[1] for x in l1 + l0}
+            if fn == "ident":
+                ok = absint.opt_view(v1) == ("Some", S("LAST")) and absint.opt_view(v0) == ("None",) and srcs == {S("self.segments")}
+            elif fn == "namespace":
+                ok = v1 == S("INIT") and (v0 == symrun.EMPTY_VEC or v0 == S("const") or v0 == ("tuple", [])) and srcs == {S("self.segments")} and l1 and l1[0][0] == "split_last"
+            else:
+                ok = v1 == S("IS_EMPTY") and srcs == {S("self.segments")}
+            detail = "non-empty -> %s, empty -> %s (reads %s)" % (symrun.show(v1), symrun.show(v0), sorted(symrun.show(x) for x in srcs))
+        except absint.Unrecognised as e:
+            ok, detail = False, "cannot interpret: %s" % e
+        chk.expect(ok, "R18.4", "Path::" + fn, b.where(), detail, cfg)
     cands = [p for p in prog.fns if p.startswith("<scale_info::ty::path::Path<") and p.endswith("as core::fmt::Display>::fmt")]
     if len(cands) == 1:
         b = prog.body(cands[0])
